@@ -95,7 +95,11 @@ impl UpdateLeadingTrivia for TokenReference {
 }
 impl UpdateTrailingTrivia for TokenReference {
     open spec fn same_sem_t(&self, r: &Self) -> bool { tok_of(*r) == tok_of(*self) && tok_nl(*r) == tok_nl(*self) }
-    open spec fn trail_ok(&self, t: FormatTriviaType, r: &Self) -> bool { (t is Append && t->Append_0@.len() > 0) ==> tok_followed_by_ws(*r) }
+    open spec fn trail_ok(&self, t: FormatTriviaType, r: &Self) -> bool {
+        ((t is Append && t->Append_0@.len() > 0) ==> tok_followed_by_ws(*r))
+        // a newline appended behind the trailing trivia closes an open line comment
+        && (t is Append && puts_on_new_line(t->Append_0@) ==> !tok_open(*r))
+    }
     open spec fn not_open(&self) -> bool { !tok_open(*self) }
     #[verifier::external_body] fn update_trailing_trivia(&self, trailing_trivia: FormatTriviaType) -> (r: Self) { unimplemented!() }
 }
@@ -141,6 +145,7 @@ pub uninterp spec fn node_start(k: NodeKey) -> Option<Position>;
 pub uninterp spec fn node_end(k: NodeKey) -> Option<Position>;
 pub trait VNode {
     spec fn key(&self) -> NodeKey;
+    spec fn line_open(&self) -> bool;      // a token of the node carries a line comment in its trailing trivia (prelude/lines.rs)
     fn start_position(&self) -> (r: Option<Position>) ensures r == node_start(self.key());
     fn end_position(&self) -> (r: Option<Position>) ensures r == node_end(self.key());
     fn leading_trivia_vec(&self) -> (r: Vec<&Token>);
@@ -149,12 +154,14 @@ pub uninterp spec fn other_key<T>(x: T) -> int;
 //@@VNODE_IMPLS@@
 impl<'a, T: VNode> VNode for &'a T {
     open spec fn key(&self) -> NodeKey { (**self).key() }
+    open spec fn line_open(&self) -> bool { (**self).line_open() }
     #[verifier::external_body] fn start_position(&self) -> (r: Option<Position>) { unimplemented!() }
     #[verifier::external_body] fn end_position(&self) -> (r: Option<Position>) { unimplemented!() }
     #[verifier::external_body] fn leading_trivia_vec(&self) -> (r: Vec<&Token>) { unimplemented!() }
 }
 impl<T: VNode> VNode for Box<T> {
     open spec fn key(&self) -> NodeKey { (**self).key() }
+    open spec fn line_open(&self) -> bool { (**self).line_open() }
     #[verifier::external_body] fn start_position(&self) -> (r: Option<Position>) { unimplemented!() }
     #[verifier::external_body] fn end_position(&self) -> (r: Option<Position>) { unimplemented!() }
     #[verifier::external_body] fn leading_trivia_vec(&self) -> (r: Vec<&Token>) { unimplemented!() }
